@@ -44,10 +44,10 @@ ASSUMPTIONS = [
     "the FT01 value seen by an evaluation in tick T is the scripted reading of tick T (no Simulate in the grammar)",
     "observation through data descriptors / method wrappers installed from the harness",
 ]
-REQUIRED = {"eval_events": 2000, "cond_crosschecks": 1500, "activations": 300, "body_child_starts": 400,
-            "cancel_accepted": 25, "cancel_effective_checks": 10, "force_accepted": 25, "forced_activations": 10,
-            "block_end_with_registered_interrupt": 25, "blockend_effective_checks": 10,
-            "alarm_rearm_checks": 40, "alarm_rerun_checks": 15, "watch_once_checks": 150}
+REQUIRED = {"eval_events": 10000, "cond_crosschecks": 10000, "activations": 1500, "body_child_starts": 2000,
+            "body_runs": 1000, "cancel_accepted": 100, "cancel_effective_checks": 50, "force_accepted": 100,
+            "forced_activations": 80, "block_end_with_registered_interrupt": 300, "blockend_effective_checks": 200,
+            "alarm_rearm_checks": 300, "alarm_rerun_checks": 200, "watch_once_checks": 500}
 
 K_LIVE = 8
 LO_HI = [(0.0, 6.0), (2.0, 4.0), (0.0, 4.0), (2.0, 6.0)]
@@ -370,7 +370,9 @@ def check_case(case, res: Result):
                 s = st[pid] = {"started": False, "completed": False, "activated": False, "interrupt_registered": False,
                                "block_ended": False, "_cancelled": False, "_forced": False,
                                "true_since_arm": False, "arm_tick": None, "gen": 0, "epoch": 0, "stale": False,
-                               "cancel_tick": None, "force_tick": None, "child_starts": {}, "ever_body": False}
+                               "cancel_tick": None, "force_tick": None, "cause": False, "stale_live": False,
+                               "in_reset": False, "epoch_children": set(), "bodies_in_gen": 0, "bodies_total": 0,
+                               "body_tick": None}
             return s
 
         # macro concurrency (mechanism 3 of C02)
@@ -424,6 +426,8 @@ def check_case(case, res: Result):
             if field in ("started", "completed", "activated", "interrupt_registered", "block_ended", "_cancelled",
                          "_forced"):
                 s[field] = new
+            if s["in_reset"] and not (new is False or new == 0):
+                s["in_reset"] = False          # the burst of a reset_runtime_state is over
             if field == "eval":
                 res.count("eval_events")
                 eval_ticks.setdefault(pid, []).append(tick)
@@ -442,20 +446,28 @@ def check_case(case, res: Result):
                     res.count("cond_not_modelled")
             elif field == "interrupt_registered":
                 if new is True:
+                    # a new handler exists from here on (an older one, if any, is dropped by the interpreter)
                     s["true_since_arm"] = False
-                    s["caused"] = False
                     s["arm_tick"] = tick
                     s["epoch"] += 1
-                    s["child_starts_epoch"] = {}
+                    s["epoch_children"] = set()
+                    s["stale_live"] = False
                 else:
                     explicit = prev is not None and prev[1] == "unreg_call" and prev[6] == pid
                     if not explicit and (isinstance(n, p.AlarmNode) or not s["completed"]):
+                        # flag cleared by reset_runtime_state of an enclosing Alarm / macro while the handler lives on
                         s["stale"] = True
+                        s["stale_live"] = True
                         res.count("registration_flag_cleared_by_enclosing_reset")
-            elif field == "started" and new is False and isinstance(n, p.NodeWithCondition):
-                s["gen"] += 1
-                if repeatable[pid]:
-                    s["child_starts"] = {}
+            elif field in ("started", "activated") and new is False and isinstance(n, p.NodeWithCondition):
+                # reset_runtime_state (own re-arm of an Alarm, or reset by an enclosing Alarm / macro invocation):
+                # from here on it is a new instance which needs its own activation
+                if not s["in_reset"]:
+                    s["gen"] += 1
+                    s["in_reset"] = True
+                    s["cause"] = False
+                    s["bodies_in_gen"] = 0
+                    s["epoch_children"] = set()
             elif field == "_cancelled" and new is True:
                 res.count("cancel_accepted")
                 s["cancel_tick"] = tick
@@ -469,7 +481,7 @@ def check_case(case, res: Result):
                 if s["_forced"] and not s["true_since_arm"]:
                     res.count("forced_activations")
                 if s["true_since_arm"] or s["_forced"]:
-                    s["caused"] = True
+                    s["cause"] = True
                 else:
                     V("C04.activated_without_true_condition", f"{nid} {cls} activated in tick {tick} without a True "
                       f"evaluation since its registration in tick {s['arm_tick']} and without force", n)
@@ -485,45 +497,65 @@ def check_case(case, res: Result):
                     res.count("block_end_with_registered_interrupt")
                     nontrivial = True
                     blockend_pending.append((tick, pid, inside))
-            elif field == "started" and new is True and ctx != pid:
-                # (a start of a Watch/Alarm line by its own interrupt handler is not a start of the enclosing body)
+            elif field in ("started", "restarted") and new is True and ctx != pid and not (
+                    field == "restarted" and isinstance(n, p.WhitespaceNode)):
+                # (a start of a Watch/Alarm line by its own interrupt handler is not a start of the enclosing body;
+                #  "restarted" = the line is visited again while its started flag is still set; blank/comment
+                #  lines assign their started flag twice within one visit and are left out)
                 par = n.parent
                 # ---- never below a Watch/Alarm whose enclosing block has ended
-                for b in guard.get(pid, ()):
-                    if S(id(b))["block_ended"]:
-                        w = next(a for a in n.parents if isinstance(a, p.NodeWithCondition))
-                        after_block_end.append((len(seen_events), n, w, b, tick))
-                        break
+                if field == "started":
+                    for b in guard.get(pid, ()):
+                        if S(id(b))["block_ended"]:
+                            w = next(a for a in n.parents if isinstance(a, p.NodeWithCondition))
+                            after_block_end.append((len(seen_events), n, w, b, tick))
+                            break
                 if isinstance(par, p.NodeWithCondition):
                     w = par
                     ws = S(id(w))
+                    kind = type(w).__name__[:-4]
+                    if ws["stale_live"]:
+                        # the handler of the previous instance of w (enclosing scope already reset, w not registered
+                        # again yet) carries on with its old body: not a new run of the body
+                        res.count("stale_handler_body_continuation_not_judged")
+                        prev = ev
+                        continue
                     res.count("body_child_starts")
                     nontrivial = True
                     if ctx is None:
                         res.count("body_child_started_on_main_path")
-                    if not ws.get("caused"):
-                        V("C04.body_without_true_condition", f"body line {nid} of {w.id} {type(w).__name__} started "
-                          f"in tick {tick}; no activation by a True evaluation or a force since its registration "
-                          f"in tick {ws['arm_tick']}", w, n)
-                    if ws["_cancelled"]:
-                        V("C04.body_after_cancel", f"body line {nid} of {w.id} {type(w).__name__} started in tick "
-                          f"{tick} after the cancel accepted in tick {ws['cancel_tick']}", w, n)
-                    if isinstance(w, p.WatchNode):
-                        res.count("watch_once_checks")
-                        c = ws["child_starts"].get(pid, 0) + 1
-                        ws["child_starts"][pid] = c
-                        if c > 1:
-                            V("C04.watch_body_twice", f"body line {nid} of Watch {w.id} started a second time in tick "
-                              f"{tick}" + (" without a reset of the enclosing Alarm/macro scope in between"
-                                           if repeatable[id(w)] else ""), w, n)
+                    if pid in ws["epoch_children"]:
+                        res.count("watch_once_checks" if kind == "Watch" else "alarm_once_checks")
+                        V("C04.watch_body_twice" if kind == "Watch" else "C04.alarm_body_twice_per_activation",
+                          f"body line {nid} of {kind} {w.id} visited a second time in tick {tick} ({field}) within one "
+                          f"run of the body (registration tick {ws['arm_tick']})", w, n)
+                    elif not ws["epoch_children"]:
+                        # ---- a run of the body begins: needs an unconsumed activation by a True evaluation / a force
+                        ws["epoch_children"].add(pid)
+                        res.count("body_runs")
+                        if ws["cause"]:
+                            ws["cause"] = False
+                        else:
+                            V("C04.body_without_true_condition", f"body of {kind} {w.id} began in tick {tick} (line "
+                              f"{nid}) without a True evaluation or accepted force of its own (registered in tick "
+                              f"{ws['arm_tick']}, previous body run began in tick {ws['body_tick']})", w, n)
+                        ws["body_tick"] = tick
+                        ws["bodies_in_gen"] += 1
+                        ws["bodies_total"] += 1
+                        if kind == "Watch":
+                            res.count("watch_once_checks")
+                            if ws["bodies_in_gen"] > 1 or (ws["bodies_total"] > 1 and not repeatable[id(w)]):
+                                V("C04.watch_body_twice", f"body of Watch {w.id} began again in tick {tick} "
+                                  f"({ws['bodies_total']} runs" + ("" if not repeatable[id(w)] else
+                                                                    ", no reset by the enclosing scope in between")
+                                  + ")", w, n)
+                        else:
+                            res.count("alarm_once_checks")
                     else:
-                        res.count("alarm_once_checks")
-                        d = ws.setdefault("child_starts_epoch", {})
-                        c = d.get(pid, 0) + 1
-                        d[pid] = c
-                        if c > 1:
-                            V("C04.alarm_body_twice_per_activation", f"body line {nid} of Alarm {w.id} started twice "
-                              f"(tick {tick}) within one registration (tick {ws['arm_tick']})", w, n)
+                        ws["epoch_children"].add(pid)
+                    if ws["_cancelled"]:
+                        V("C04.body_after_cancel", f"body line {nid} of {kind} {w.id} started in tick "
+                          f"{tick} after the cancel accepted in tick {ws['cancel_tick']}", w, n)
             if isinstance(n, p.CallMacroNode):
                 if field == "started" and new is True:
                     mac_active[n.macro_name] = mac_active.get(n.macro_name, 0) + 1
